@@ -10,7 +10,7 @@
      key     : str(r) of the ReactionContainer that would be yielded (after contract_ions).
    Python generators are modelled by the list of values they yield and the exception that ends them, if any. *)
 From Coq Require Import ZArith List Bool Lia.
-From Model Require Import PyBase Graph Reactor.
+From Model Require Import PyBase Graph Reactor Stereo.
 Import ListNotations.
 Open Scope Z_scope.
 
@@ -299,3 +299,56 @@ Definition label_kept_eqb (model real : option bool) : bool :=
 Definition stereo_case_eqb (sth hs : list Z) (g : mol) (obs : list (Z * list Z * option bool)) : bool :=
   forallb (fun o => list_eqb Z.eqb (th_env (fun x => zmem x hs) g (fst (fst o))) (snd (fst o)) &&
                     label_kept_eqb (untouched_label sth g (fst (fst o))) (snd o)) obs.
+
+(* ====================================================================================================
+   Cis/trans bonds and allenes the template does not touch.
+   stereogenic_cumulenes[path] = (nn[0], mn[0], nn[1] if len(nn) == 2 else None, mn[1] if len(mn) == 2 else None) with
+       nn = [x for x, b in bonds[path[0]].items() if x != path[1] and atoms[x] != H and b != 8]     (mn: the other end)
+   The chain walk that finds `path` (MoleculeContainer.cumulenes) is NOT modelled: the two terminal atoms t1, t2 and their
+   inner neighbours i1, i2 are inputs.  In _patcher the label of such a bond / of the central atom of such an allene is
+   re-computed as  new._translate_cis_trans_sign( *n12, *env[:2], old) / new._translate_allene_sign(n, *env[:2], old)
+   with env the entry of the INPUT structure, when the entry of the product holds the same atoms.
+   ==================================================================================================== *)
+Definition order8 (g : mol) (t x : Z) : bool := match bond_of g t x with Some b => b_ord b =? 8 | None => false end.
+Definition end_nbrs (isH : Z -> bool) (g : mol) (t inner : Z) : list Z :=
+  filter (fun x => negb (x =? inner) && negb (isH x) && negb (order8 g t x)) (nbr_ids g t).
+Definition second_of (l : list Z) : option Z := match l with [_; b] => Some b | _ => None end.
+Definition cum_env (isH : Z -> bool) (g : mol) (t1 i1 t2 i2 : Z) : option (Z * Z * option Z * option Z) :=
+  match end_nbrs isH g t1 i1, end_nbrs isH g t2 i2 with
+  | a :: ra, b :: rb => Some (a, b, second_of (a :: ra), second_of (b :: rb))
+  | _, _ => None
+  end.
+Definition env_atoms (e : Z * Z * option Z * option Z) : list Z :=
+  let '(a, b, c, d) := e in a :: b :: (match c with Some x => [x] | None => [] end) ++ (match d with Some x => [x] | None => [] end).
+(* the label the translation loop of _patcher stores (None: the loop leaves the copy without label) *)
+Definition patched_cum_label (isH isH' : Z -> bool) (g new : mol) (t1 i1 t2 i2 : Z) (s : bool) : pyres (option bool) :=
+  match cum_env isH' new t1 i1 t2 i2, cum_env isH g t1 i1 t2 i2 with
+  | Some e', Some (n0, n1, o2, o3) =>
+      if same_keys_z (env_atoms e') (env_atoms (n0, n1, o2, o3))
+      then match Stereo.translate_env isH' e' n0 n1 s with Ok r => Ok (Some r) | Err e => Err e end
+      else Ok None
+  | _, _ => Ok None
+  end.
+(* the element test `atoms[x] == H` on a model molecule *)
+Definition is_H_atom (g : mol) (x : Z) : bool :=
+  match atom_of g x with
+  | Some a => (a_num a =? 1) && (match a_iso a with None => true | Some _ => false end) && (a_chg a =? 0) && negb (a_rad a)
+  | None => false
+  end.
+(* runner: (t1, i1, i2, t2, label in the input, observed registry entry of the input, label of the real product) *)
+Definition env_eqb (a b : option (Z * Z * option Z * option Z)) : bool :=
+  option_eqb (fun x y => (fst (fst (fst x)) =? fst (fst (fst y))) && (snd (fst (fst x)) =? snd (fst (fst y))) &&
+                         option_eqb Z.eqb (snd (fst x)) (snd (fst y)) && option_eqb Z.eqb (snd x) (snd y)) a b.
+Definition cum_case_eqb (g new : mol) (t1 i1 i2 t2 : Z) (s : bool) (obs_env : option (Z * Z * option Z * option Z))
+  (real : option bool) : bool :=
+  env_eqb (cum_env (is_H_atom g) g t1 i1 t2 i2) obs_env &&
+  match patched_cum_label (is_H_atom g) (is_H_atom new) g new t1 i1 t2 i2 s with
+  | Ok model => label_kept_eqb model real
+  | Err _ => false
+  end.
+Definition cum_case_run (g : mol) (mapping : list (Z * Z)) (to_del : list Z) (tpl : template) (t1 i1 i2 t2 : Z) (s : bool)
+  (obs_env : option (Z * Z * option Z * option Z)) (real : option bool) : bool :=
+  match patcher_with get_deleted g mapping to_del tpl with
+  | Ok (new, _) => cum_case_eqb g new t1 i1 i2 t2 s obs_env real
+  | Err _ => false
+  end.
